@@ -519,6 +519,18 @@ class Lib:
     def value_eq(self, interp, a, b):
         if isinstance(a, DType) or isinstance(b, DType):
             return self.dtype_eq(a, b)
+        if isinstance(b, SymSetLen):
+            a, b = b, a
+        if isinstance(a, SymSetLen) and is_conc(norm(b)) and int(norm(b)) == 1:
+            # len(set(seq)) == 1: decided only when the element at a symbolic position does not depend on the position
+            # (then the set is {that element} iff the sequence is non-empty)
+            seq = a.s.seq
+            k = sv.fresh_int("setk")
+            e_k, e_0 = seq.fn(k), seq.fn(0)
+            same = interp.py_eq(e_k, e_0)
+            if same is True or (isinstance(same, SV) and z3.is_true(z3.simplify(sv.zb(same)))):
+                return sv.cmp(">=", seq.length, 1)
+            raise EngineError("len(set(<symbolic sequence>)) == 1 with position-dependent elements")
         if isinstance(a, ClassVal) and isinstance(b, ClassVal):
             return a.name == b.name
         raise EngineError(f"equality of {type(a).__name__} and {type(b).__name__}")
